@@ -31,8 +31,9 @@ func convertReflectValueToType(rv reflect.Value, rt reflect.Type) (reflect.Value
 		return rv, nil
 	}
 	if rv.Type().ConvertibleTo(rt) {
-		if rv.Kind() == reflect.Slice && rt.Kind() == reflect.Array && rv.Len() < rt.Len() {
-			// Go converts a slice to an array only when the slice is long enough (Convert panics otherwise)
+		if rv.Kind() == reflect.Slice && (rt.Kind() == reflect.Array && rv.Len() < rt.Len() ||
+			rt.Kind() == reflect.Ptr && rt.Elem().Kind() == reflect.Array && rv.Len() < rt.Elem().Len()) {
+			// Go converts a slice to an array (or array pointer) only when the slice is long enough (Convert panics otherwise)
 			return rv, errInvalidTypeConversion
 		}
 		// if reflect can covert, do that conversion and return
